@@ -169,4 +169,18 @@ Proof.
   destruct (split_last_spec _ _ _ _ E) as (Ea & _). subst a.
   unfold nulfree in *. apply Forall_app in Hn. exact (proj1 Hn).
 Qed.
+
+(* the rejections of basic_email_check are the same in all four modes (mode 6531 included) *)
+Lemma email_basic_rejections (m1 m2 : mode) t a :
+  a = [] \/ split_last AT a = None \/ (exists l, split_last AT a = Some (l, [])) \/
+  (exists l d, split_last AT a = Some (l, d) /\ (64 < length l)%nat) ->
+  email idn g tbl m1 t a = email idn g tbl m2 t a.
+Proof.
+  intros [E|[E|[(l & E)|(l & d & E & Hl)]]]; unfold email.
+  - subst a. reflexivity.
+  - destruct a; [reflexivity|]. rewrite E. reflexivity.
+  - destruct a; [reflexivity|]. rewrite E. reflexivity.
+  - destruct a; [reflexivity|]. rewrite E. destruct d; [reflexivity|].
+    apply PeanoNat.Nat.ltb_lt in Hl. rewrite Hl. reflexivity.
+Qed.
 End Addr.
